@@ -33,6 +33,11 @@ binding:   (a) spec -> code: every CASE x k concretizations is fed to the real p
            documents must not change the first one's dump.  In the trace leg every document is
            re-dumped after the next document was parsed and a sibling parse was edited; that output
            is one more element of `outs`, judged by TLC.
+           Aborted parses are history steps too (ParseFails; negative control LeftoverRunBuffer =
+           TRUE): before every 4th (thorough: 3rd) CASE parse and every 4th recorded document a parse of 1..8 (now
+           and then 9..257) comment / field / error / continuation lines is aborted -- the input
+           generator raises, a bytes line does not decode, or an unterminated non-final line follows
+           -- and the valid parse after it must still be exact.
            (d) size dimension (notes/SIZE_STRESS.md): the abstract cases are unchanged; every 4th
            (thorough: 3rd, 6th of the 5-line cases) CASE gets one more concretization whose segment lengths hit boundary
            values (names up to 300, whitespace runs up to 4097, values / comments / garbage lines up
@@ -558,6 +563,71 @@ def shared_scenario(lines, expected, other, mseed, stats=None):
     return None
 
 
+class _InputBoom(Exception):
+    """raised by the harness' own input generator (ParseFails: the input iterable raises)"""
+
+
+FAIL_HOWS = ("generator", "bytes", "unterminated")
+
+
+def failing_parse(lines, how):
+    """ParseFails: a parse that reads the given (terminated) lines and is then aborted --
+    the input generator raises, a bytes line does not decode, or the next line is an
+    unterminated non-final line (outside the domain: the tokenizer refuses it).  What the
+    failing call does is not judged; returns the exception type name (or "returned")."""
+    if how == "generator":
+        def gen():
+            for l in lines:
+                yield l
+            raise _InputBoom("input iterable failed")
+        arg = gen()
+    elif how == "bytes":
+        arg = [l.encode("utf-8", "surrogatepass") for l in lines] + [b"# \xff\xfe undecodable\n", b"X: y\n"]
+    else:
+        arg = list(lines) + ["Unterminated: line", "After: it\n"]
+    try:
+        _parse(arg)
+        return "returned"
+    except Exception as e:
+        return type(e).__name__
+
+
+def poison_lines(rng, gen, want, style="ascii"):
+    """k terminated lines that leave a run pending when the parse is aborted after them: comment
+    lines, field lines, error lines, continuation lines, or a mixture (classes and segments come
+    from the specification's LTS); k up to 8, sometimes a boundary count"""
+    k = rng.choice([1, 2, 2, 3, 4, 5, 6, 7, 8, 8]) if rng.random() < 0.93 else rng.choice(COUNTS)
+    F = ["F1", "F1b", "F1a", "F1ba", "F0", "F0s"]
+    kind = want if (want and rng.random() < 0.7) else rng.choice(["comment", "field", "error", "value", "mixed"])
+    if kind == "comment":
+        cl = ["H"] * k
+    elif kind == "field":
+        cl = [rng.choice(F) for _ in range(k)]
+    elif kind == "error":
+        cl = rng.choice([[], ["E"]]) + [rng.choice(["X", "X", "C"]) for _ in range(k)]
+    elif kind == "value":
+        cl = ["F1b"] + ["C"] * k
+    else:
+        cl = [rng.choice(gen.classes) for _ in range(k)]
+    if rng.random() < 0.3:
+        cl = rng.choice([["F1b"], ["X"], ["H", "F1"], ["E"]]) + cl
+    return gen.from_classes(cl, "T", style), kind
+
+
+def wanted_poison(classes):
+    """the kind of pending run that the next (valid) document would pick up"""
+    kinds = []
+    if "H" in classes:
+        kinds.append("comment")
+    if any(c.startswith("F") for c in classes):
+        kinds.append("field")
+    if "X" in classes or "C" in classes:
+        kinds.append("error")
+    if "C" in classes and any(c.startswith("F") for c in classes):
+        kinds.append("value")
+    return kinds
+
+
 def prev_check(prev, cur_lines):
     """(1) the previous document (kept alive, unmodified) after another document was parsed"""
     pf, plines, pexp = prev
@@ -668,6 +738,9 @@ def replay_history(history):
     alive = []
     for ev in history or []:
         try:
+            if ev["ev"] == "fail":
+                failing_parse(ev["lines"], ev["how"])
+                continue
             lines, expected = case_texts(ev["case"], ev["conc"])
             if ev["ev"] == "parse":
                 alive.append(observe(lines, keep=True))
@@ -681,7 +754,8 @@ def replay_history(history):
     return alive
 
 
-def replay_cases(ctx, cases, styles, index, shared_every, stats, bytes_every=7, big_every=4):
+def replay_cases(ctx, cases, styles, index, shared_every, stats, bytes_every=7, big_every=4, gen=None,
+                 fail_every=3):
     """styles: concretization styles per case (the first one is the canonical minimal form);
     shared_every: every n-th case also runs the shared-state scenario (1 = all);
     big_every: every n-th case gets one more, size-stressed concretization (boundary lengths)"""
@@ -689,10 +763,22 @@ def replay_cases(ctx, cases, styles, index, shared_every, stats, bytes_every=7, 
     rng = ctx.rng
     n = 0
     prev = None          # (file, lines, expected) of the previous concretization, kept alive
-    history = deque(maxlen=4)     # the last harness events, recorded with every violation
+    history = deque(maxlen=6)     # the last harness events, recorded with every violation
     for idx, case in enumerate(cases):
         for j, style in enumerate(styles + ["big"] if idx % big_every == 1 % big_every else styles):
             conc = concretize_case(rng, case, style)
+            if gen is not None and (idx + j) % fail_every == 0:
+                # ParseFails before the valid parse: an aborted call must leave nothing behind
+                kinds = wanted_poison(case["ls"])
+                pl, kind = poison_lines(rng, gen, rng.choice(kinds) if kinds else None,
+                                        "big" if rng.random() < 0.03 else rng.choice(["ascii", "wild"]))
+                how = FAIL_HOWS[(idx + j) // fail_every % 3]
+                res = failing_parse(pl, how)
+                key = "aborted_parses_%s" % how
+                stats[key] = stats.get(key, 0) + 1
+                if res == "returned":
+                    stats["aborted_parses_that_returned"] = stats.get("aborted_parses_that_returned", 0) + 1
+                history.append({"ev": "fail", "lines": pl, "how": how})
             if style == "big":
                 stats["size_stressed_concretizations"] = stats.get("size_stressed_concretizations", 0) + 1
                 stats["longest_line_replayed"] = max(stats.get("longest_line_replayed", 0),
@@ -1061,8 +1147,8 @@ def add_later(obs):
         obs["file"] = None
 
 
-def record_and_validate(ctx, g, ndocs, maxlen, batch, stats):
-    gen = DocGen(g, ctx.rng)
+def record_and_validate(ctx, gen, ndocs, maxlen, batch, stats):
+    g = gen.g
     total_bad = 0
     ndrift = 0
     lens = {}
@@ -1078,6 +1164,16 @@ def record_and_validate(ctx, g, ndocs, maxlen, batch, stats):
             stats["longest_document_lines"] = max(len(l) for _, l in bigs)
             stats["longest_line_recorded"] = max(max(len(x) for x in l) for _, l in bigs if l)
         for lines, genc in todo:
+            pre_fail = None
+            if len(docs) % 4 == 0:
+                # an aborted parse right before this document (ParseFails, Parse): nothing may leak
+                classes = [classify(l)[-1] for l in lines[:12] if len(l) < 200]
+                kinds = wanted_poison(classes)
+                pl, _ = poison_lines(ctx.rng, gen, ctx.rng.choice(kinds) if kinds else None, ctx.rng.choice(["ascii", "wild"]))
+                how = FAIL_HOWS[(len(docs) // 4) % 3]
+                failing_parse(pl, how)
+                stats["aborted_parses_before_recorded_documents"] = stats.get("aborted_parses_before_recorded_documents", 0) + 1
+                pre_fail = {"lines": pl, "how": how}
             obs = observe(lines, keep=True, diag=len(lines) <= 300)
             mseed = ctx.rng.randrange(1 << 30)
             sibling_edit(lines, mseed, stats)
@@ -1087,7 +1183,7 @@ def record_and_validate(ctx, g, ndocs, maxlen, batch, stats):
                 add_later(docs[-1][1])
                 ctxs[-1]["next_lines"] = lines
             docs.append((lines, obs))
-            ctxs.append({"mseed": mseed, "next_lines": None})
+            ctxs.append({"mseed": mseed, "next_lines": None, "pre_fail": pre_fail})
             b = min(len(lines) // 10 * 10, 40)
             lens[b] = lens.get(b, 0) + 1
             if genc is not None:
@@ -1098,7 +1194,8 @@ def record_and_validate(ctx, g, ndocs, maxlen, batch, stats):
         for i in bad:
             lines, obs = docs[i]
             total_bad += 1
-            ctx.violation({"kind": "trace", "lines": lines, "mseed": ctxs[i]["mseed"], "next_lines": ctxs[i]["next_lines"]},
+            ctx.violation({"kind": "trace", "lines": lines, "mseed": ctxs[i]["mseed"], "next_lines": ctxs[i]["next_lines"],
+                           "pre_fail": ctxs[i]["pre_fail"]},
                           "recorded parse rejected by TraceReproTokenizer: the document is in the domain but the "
                           "output is not the input (exception: %s; dump() = %s; token texts = %s; dump() again after "
                           "the next document was parsed = %s); input %s"
@@ -1171,48 +1268,58 @@ def run(ctx):
     if set(per_branch) != {"TokBlank", "TokComment", "TokContinuation", "TokStrayIndent", "TokField", "TokGarbage"}:
         raise core.MachineryError("a tokenizer branch is unreachable in the model: %r" % (per_branch,))
 
-    # 2. spec-level negative controls
+    # 2. design-level runs that do not feed the binding go to a background thread (they only need to
+    #    finish before the verdict): spec-level negative controls, the process-wide model, and in the
+    #    thorough tier the larger bounded configurations
     neg = {}
-    for cfg, inv, const in NEG_CONTROLS:
-        rn = ctx.tlc("ReproTokenizer", cfg, count=False, workers=2)
-        if rn.violated != inv:
-            raise core.MachineryError("negative control %s = TRUE did not violate %s (got %r)" % (const, inv, rn.violated))
-        neg[const] = "violates " + inv
-    # 2b. process-wide model: unmodified documents stay lossless, edits are isolated
-    ctx.tlc_must_hold("ReproTokenizerShared", "MC_ReproTokenizerShared.cfg", workers=2)
-    rn = ctx.tlc("ReproTokenizerShared", "MC_ReproTokenizerShared_neg.cfg", count=False, workers=2)
-    if rn.violated != "UnmodifiedLossless":
-        raise core.MachineryError("negative control SharedTokens = TRUE did not violate UnmodifiedLossless (got %r)"
-                                  % (rn.violated,))
-    neg["SharedTokens"] = "violates UnmodifiedLossless"
-    ctx.extra["spec_negative_controls"] = neg
+    bg_res = {}
+
+    def design_runs():
+        try:
+            for cfg, inv, const in NEG_CONTROLS:
+                rn = ctx.tlc("ReproTokenizer", cfg, count=False, workers=2)
+                if rn.violated != inv:
+                    raise core.MachineryError("negative control %s = TRUE did not violate %s (got %r)"
+                                              % (const, inv, rn.violated))
+                neg[const] = "violates " + inv
+            # process-wide model: unmodified documents stay lossless, edits are isolated, aborted
+            # parses leave nothing behind
+            ctx.tlc_must_hold("ReproTokenizerShared", "MC_ReproTokenizerShared.cfg", workers=2)
+            for cfg, const in (("MC_ReproTokenizerShared_neg.cfg", "SharedTokens"),
+                               ("MC_ReproTokenizerShared_neg_leftover.cfg", "LeftoverRunBuffer")):
+                rn = ctx.tlc("ReproTokenizerShared", cfg, count=False, workers=2)
+                if rn.violated != "UnmodifiedLossless":
+                    raise core.MachineryError("negative control %s = TRUE did not violate UnmodifiedLossless "
+                                              "(got %r)" % (const, rn.violated))
+                neg[const] = "violates UnmodifiedLossless"
+            if not quick:
+                ctx.tlc_must_hold("ReproTokenizerShared", "MC_ReproTokenizerShared_big.cfg", workers=4)
+                ctx.tlc_must_hold("ReproTokenizer", "MC_ReproTokenizer_bnd6.cfg", workers=4)
+                ctx.tlc_must_hold("ReproTokenizer", "MC_ReproTokenizer_bnd5.cfg", workers=4)
+        except Exception as e:      # re-raised in the main thread
+            bg_res["err"] = e
+    bg = threading.Thread(target=design_runs)
+    bg.start()
+    gen = DocGen(g, ctx.rng)
     stats = {}
 
     # 3. bounded configurations: the property on every document; CASE replay
-    bg = None
-    bg_res = {}
+    plan = None
     if quick:
-        rq = ctx.tlc_must_hold("ReproTokenizer", "MC_ReproTokenizer_bnd_quick.cfg", workers=W, want_tags={"CASE"})
-        cq = load_cases(rq)
-        plan = [([c for c in cq if len(c["ls"]) <= 3], ["canonical", "wild", "wild"]),
-                ([c for c in cq if len(c["ls"]) == 4], ["canonical", "wild"])]
         ctx.extra["model_constants"] = {"classes": 11, "max_lines_full_alphabet": 3, "max_lines_6_classes": 4,
                                         "modes": ["T", "N"]}
     else:
-        def background():
-            try:
-                bg_res["r6"] = ctx.tlc_must_hold("ReproTokenizer", "MC_ReproTokenizer_bnd6.cfg", workers=4)
-                bg_res["r5"] = ctx.tlc_must_hold("ReproTokenizer", "MC_ReproTokenizer_bnd5.cfg", workers=4)
-            except Exception as e:      # re-raised in the main thread
-                bg_res["err"] = e
-        bg = threading.Thread(target=background)
-        bg.start()
-        plan = None
         ctx.extra["model_constants"] = {"classes": 11, "max_lines_full_alphabet": "4 replayed, 5 model-checked",
                                         "max_lines_8_classes": "5 replayed", "max_lines_6_classes": "6 model-checked",
                                         "modes": ["T", "N"]}
     try:
-        if plan is None:
+        if quick:
+            rq = ctx.tlc_must_hold("ReproTokenizer", "MC_ReproTokenizer_bnd_quick.cfg", workers=W, want_tags={"CASE"})
+            cq = load_cases(rq)
+            plan = [([c for c in cq if len(c["ls"]) <= 2], ["canonical", "wild", "wild", "wild"]),
+                    ([c for c in cq if len(c["ls"]) == 3], ["canonical", "wild"]),
+                    ([c for c in cq if len(c["ls"]) == 4], ["canonical", "wild"])]
+        else:
             rt = ctx.tlc_must_hold("ReproTokenizer", "MC_ReproTokenizer_bnd_thorough.cfg", workers=W,
                                    want_tags={"CASE"})
             ct = load_cases(rt)
@@ -1230,7 +1337,8 @@ def run(ctx):
             n_lines = len(cases[0]["ls"]) if cases else 0
             every = 2 if quick else (3 if n_lines >= 5 else 2 if n_lines == 4 else 1)
             big_every = 4 if quick else (6 if cases and len(cases[0]["ls"]) >= 5 else 3)
-            n_replayed += replay_cases(ctx, cases, styles, index, every, stats, big_every=big_every)
+            n_replayed += replay_cases(ctx, cases, styles, index, every, stats, big_every=big_every, gen=gen,
+                                       fail_every=4 if quick else 3)
             if len(ctx.violations) >= ctx.max_violation_files:
                 break
         ctx.extra["cases_by_length"] = {str(k): v for k, v in sorted(by_len.items())}
@@ -1246,18 +1354,18 @@ def run(ctx):
 
         # 4. code -> spec
         if len(ctx.violations) < ctx.max_violation_files:
-            ndocs, batch = (1200, 1200) if quick else (7500, 2500)
-            record_and_validate(ctx, g, ndocs, 40, batch, stats)
+            ndocs, batch = (1000, 1000) if quick else (7500, 2500)
+            record_and_validate(ctx, gen, ndocs, 40, batch, stats)
             ctx.traces += ndocs
             ctx.evaluations += ndocs
             ctx.extra["traces_recorded"] = ndocs
         ctx.traces += n_replayed
         ctx.extra["shared_state"] = stats
     finally:
-        if bg is not None:
-            bg.join()       # never leave the background TLC run behind
+        bg.join()       # never leave the background TLC runs behind
     if "err" in bg_res:
         raise bg_res["err"]
+    ctx.extra["spec_negative_controls"] = neg
 
 
 def replay(ctx, case):
@@ -1286,6 +1394,8 @@ def replay(ctx, case):
         return msg
     if case.get("kind") == "trace":
         lines = case["lines"]
+        if case.get("pre_fail"):
+            failing_parse(case["pre_fail"]["lines"], case["pre_fail"]["how"])
         obs = observe(lines, keep=True)
         if case.get("mseed") is not None:
             sibling_edit(lines, case["mseed"])
